@@ -316,6 +316,9 @@ impl Part for C03 {
                         k.pk_s = k.pk_r.clone();
                         k.ikm_e = ikm_r.clone();
                     }
+                    // (non-canonical X25519 encodings of pkR / pkS are NOT a case here: RFC 9180 Decap serializes pk(skR) and
+                    // AuthEncap pk(skS), so a party holding a non-canonical encoding of the peer's key does not interoperate by
+                    // the RFC's own definition; C01 covers what the crate does when both sides hold the same bytes)
                     _ => {}
                 }
                 let k = k;
